@@ -22,7 +22,7 @@ func init() {
 	register(&mc.Check{
 		ID:    "C17",
 		Level: "model_checking",
-		Rule: "applications (navigator, loader with counting external functions, input echo, paginated sink mid-browse, engine with a WithFirst function) x all valid histories up to depth d x EVERY insertion position 0..|h| x refused inputs {!,' 1',-1,newline,*,0xff,1<nl>1,256 x a,300 x 1,a + 150 x e-acute (301 bytes)} x client behaviour after the refusal {nothing, Flush, Flush+Finish} x {long-lived, persisted on mem, persisted on fs}; " +
+		Rule: "applications (navigator, loader with counting external functions, input echo, paginated sink mid-browse, engine with a WithFirst function) x all valid histories up to depth d x EVERY insertion position 0..|h| x refused inputs {!,' 1',-1,newline,*,0xff,1<nl>1,256 x a,300 x 1,a + 150 x e-acute (301 bytes)} x client behaviour after the refusal {nothing, Flush, Flush+Finish, and - engines kept between requests - the previous request's output fetched only after the refusal} x {long-lived, persisted on mem, persisted on fs}; " +
 			"two-run oracle: the refused request returns an error and calls no application code; outputs, continue flags and call logs of all other requests equal the run without it; persisted snapshot before and after the refused request is equal; Flush before any Exec is refused and changes nothing; " +
 			"states = distinct (app, history prefix) insertion points; non-trivial = insertions after at least one move away from the entry page",
 		Assumptions: []string{"for a brand-new session the snapshot is not compared (the staged entry move is not an observable effect), only the behaviour of the following requests"},
@@ -41,7 +41,11 @@ var c17Refused = []string{"!", " 1", "-1", "\n", "*", "\xff", "1\n1", strings.Re
 var c17CustomOnce sync.Once
 
 func c17CustomFormat() {
-	c17CustomOnce.Do(func() { vm.RegisterInputValidator(0, "^%.*") })
+	c17CustomOnce.Do(func() {
+		vm.RegisterInputValidator(0, "^%.*")
+		// a format that does not compile is refused at registration; it must not be left behind half registered
+		vm.RegisterInputValidator(1, "^(")
+	})
 }
 
 func isAlnum(b byte) bool {
@@ -127,6 +131,14 @@ func c17Exec(d c17AppDef, o lsOpts, h []string, pos int, refused string, style i
 	where := func(k int) string {
 		return fmt.Sprintf("%s %s/%s history %q refused %q inserted before request %d (client style %d), request %d", d.name, o.Mode, o.Backend, all, short(refused), pos, style, k)
 	}
+	// client style 3 (one engine kept between requests only): the output of the request BEFORE the refused
+	// input has not been fetched yet when the refused input arrives; it is fetched afterwards and must be
+	// the page that request produced
+	unfetched := style == 3 && pos > 0 && strings.HasPrefix(o.Mode, "long-lived")
+	if style == 3 {
+		style = 0
+	}
+	pendingOut, havePending := "", false
 	for k := 0; k <= len(all); k++ {
 		if k == pos {
 			var beforeKey string
@@ -157,6 +169,13 @@ func c17Exec(d c17AppDef, o lsOpts, h []string, pos int, refused string, style i
 			if r.Out != "" {
 				return "output-on-refused-input", fmt.Sprintf("%s: output %q", where(k), r.Out), reqs
 			}
+			if havePending {
+				out, err := test.FlushOnly()
+				if err != nil || out != pendingOut {
+					return "pending-output-lost-by-refused-input", fmt.Sprintf("%s: the page of request %d had not been fetched when the refused input arrived; Flush afterwards gives %q (%v), the page was %q", where(k), k-1, short(out), err, short(pendingOut)), reqs
+				}
+				havePending = false
+			}
 			if haveBefore {
 				st, ca, _, err := test.Snapshot()
 				if err != nil {
@@ -173,7 +192,14 @@ func c17Exec(d c17AppDef, o lsOpts, h []string, pos int, refused string, style i
 			break
 		}
 		rb := base.Request([]byte(all[k]))
-		rt := test.Request([]byte(all[k]))
+		var rt app.Resp
+		if unfetched && k == pos-1 && rb.ExecErr == "" && rb.FlushErr == "" && rb.Cont {
+			rt = test.Attempt([]byte(all[k]), 0) // Exec only
+			rt.Out, rt.FlushErr, rt.FinishErr = rb.Out, rb.FlushErr, rb.FinishErr
+			pendingOut, havePending = rb.Out, true
+		} else {
+			rt = test.Request([]byte(all[k]))
+		}
 		reqs += 2
 		if rt.Panic != "" && rb.Panic == "" {
 			return "panic", fmt.Sprintf("%s: panic %s", where(k), rt.Panic), reqs
@@ -248,7 +274,15 @@ func c17Run(c *mc.Ctx) {
 	}
 	c.Note("valid_history_depth", fmt.Sprint(depth))
 	c17CustomFormat()
-	_, cerr := vm.ValidInput([]byte("%ok"))
+	cerr := func() (err error) {
+		defer func() {
+			if recover() != nil {
+				err = nil // reported below, through the engine
+			}
+		}()
+		_, err = vm.ValidInput([]byte("%ok"))
+		return
+	}()
 	c.Vacuity("custom-input-format-active", cerr == nil)
 	// every single byte that is not a letter or digit (and not '%', the custom format) is refused, at the
 	// first request and after one: 2 x 193 inputs on the navigator, long-lived and persisted
@@ -287,7 +321,10 @@ func c17Run(c *mc.Ctx) {
 				}
 				for pos := 0; pos <= len(h)+1; pos++ {
 					for _, rf := range c17Refused {
-						for style := 0; style < 3; style++ {
+						for style := 0; style < 4; style++ {
+							if style == 3 && (!strings.HasPrefix(o.Mode, "long-lived") || pos == 0) {
+								continue
+							}
 							nt := false
 							sig, msg, reqs := c17Exec(d, o, h, pos, rf, style, &nt)
 							c.Count("evaluations", 1)
